@@ -193,6 +193,57 @@ def build_app(track=None):
         rq.cart = [rq.who]
         return 'set %s %r' % (rq.who, rq.cart)
 
+    @app.route('/prepared')
+    def prepared():
+        # one answer prepared at start-up (with an anonymous session cookie); every request sends a copy of it, personalised or not
+        if 'anon' not in kept:
+            kept['anon'] = HTTPResponse('see you', 200, {'X-Prepared': 'yes'})
+            kept['anon'].set_cookie('session', 'anonymous', path='/')
+            kept['anon'].set_cookie('theme', 'light')
+        m = app.request.query.get('m')
+        mine = kept['anon'].copy(cls=HTTPResponse)
+        if m:
+            mine.set_cookie('session', 'session-of-' + m, path='/account', httponly=True)
+            mine.delete_cookie('theme')
+            mine.headers['X-Prepared'] = 'for ' + m
+        mine.body = 'see you'
+        return mine
+
+    @app.route('/emptybody', method='POST')
+    def emptybody():
+        rq = app.request
+        if rq.query.get('close'):
+            with rq.body as fp:        # an application that closes what it was given when it is done
+                data = fp.read()
+            return 'closed after %d bytes' % len(data)
+        return 'forms=%r body=%r json=%r' % (sorted(rq.forms.items()), rq.body.read(), rq.json)
+
+    @app.route('/status599')
+    def status599():
+        m = app.request.query.get('m')
+        if m:
+            app.response.status = '599 Backend of %s on fire' % m
+        else:
+            app.response.status = 599
+        return 'st'
+
+    @app.route('/abort599')
+    def abort599():
+        ombott.abort(599, 'no phrase of its own')
+
+    @app.route('/hdrnum')
+    def hdrnum():
+        q = app.request.query
+        v = {'false': False, 'true': True, 'zero': 0, 'one': 1, 'fzero': 0.0, 'fone': 1.0}[q.get('v')]
+        app.response.headers['X-Num'] = v
+        app.response.headers.append('X-Num', v)
+        return 'n' if q.get('v') in ('fone', 'true', 'one') else ''
+
+    @app.route('/whoami')
+    def whoami():
+        rq = app.request
+        return 'addr=%r route=%r auth=%r len=%r' % (rq.remote_addr, rq.remote_route, rq.auth, rq.content_length)
+
     @app.route('/ext_get')
     def ext_get():
         rq = app.request
@@ -275,6 +326,26 @@ def kinds():
         'peek': lambda m: dict(method='GET', path='/peek', qs='m=' + m),
         'ext_set': lambda m: dict(method='GET', path='/ext_set', qs='m=' + m),
         'ext_get': lambda m: dict(method='GET', path='/ext_get'),
+        # a client behind proxies that authenticates, then an anonymous one
+        'whoami_known': lambda m: dict(method='GET', path='/whoami', headers={'X-Forwarded-For': 'client-%s, proxy-%s' % (m, m),
+                                                                              'Authorization': 'Basic ' + __import__('base64').b64encode(('user-%s:pw-%s' % (m, m)).encode()).decode()}),
+        'whoami_anon': lambda m: dict(method='GET', path='/whoami'),
+        'prepared_copy_personal': lambda m: dict(method='GET', path='/prepared', qs='m=' + m),
+        'prepared_copy_plain': lambda m: dict(method='GET', path='/prepared'),
+        # a body announced as empty: closed by one request's handler, looked at by the next
+        'empty_body_closed': lambda m: dict(method='POST', path='/emptybody', qs='close=1&m=' + m, body=b'', content_length=0),
+        'empty_body_read': lambda m: dict(method='POST', path='/emptybody', qs='m=' + m, body=b'', content_length=0, content_type='application/x-www-form-urlencoded'),
+        # a status code without a registered phrase: with a phrase of the request's own, then plain
+        'status_str_599': lambda m: dict(method='GET', path='/status599', qs='m=' + m),
+        'status_int_599': lambda m: dict(method='GET', path='/status599'),
+        'abort_599': lambda m: dict(method='GET', path='/abort599', qs='x=' + m),
+        # header values that are equal as numbers but not as text
+        'hdr_false': lambda m: dict(method='GET', path='/hdrnum', qs='v=false'), 'hdr_zero': lambda m: dict(method='GET', path='/hdrnum', qs='v=zero'),
+        'hdr_fzero': lambda m: dict(method='GET', path='/hdrnum', qs='v=fzero'), 'hdr_true': lambda m: dict(method='GET', path='/hdrnum', qs='v=true'),
+        'hdr_one': lambda m: dict(method='GET', path='/hdrnum', qs='v=one'), 'hdr_fone': lambda m: dict(method='GET', path='/hdrnum', qs='v=fone'),
+        # a path cut in the middle of a UTF-8 sequence at its very end
+        'badpath_tail': lambda m: dict(method='GET', path='/x', raw_path='/ok/' + m + '\xc3', qs='u=' + m),
+        'badpath_tail3': lambda m: dict(method='GET', path='/x', raw_path='/plain\xe6\x97', qs='u=' + m),
         'prepared_bye': lambda m: dict(method='GET', path='/bye'),
         'logout': lambda m: dict(method='GET', path='/logout'),
         'relogin': lambda m: dict(method='GET', path='/relogin', qs='m=' + m),
@@ -299,7 +370,8 @@ def kinds():
 
 VARIANTS = ['A1', 'B22xx']      # different lengths: pages that embed the URL differ in size
 SUCCESS = {'ok', 'plain', 'raise', 'head', 'gen', 'form', 'urlform', 'signed', 'goodjson', 'gen_cookie', 'file', 'file_wrapped', 'file_wrapped_head', 'session', 'ok_http10',
-           'chunked_urlform', 'peek', 'spilled_echo', 'cookies_bad', 'cookies_ok', 'form_repeated', 'greet_known', 'greet_stranger', 'anon_wildcard_path', 'prepared_bye', 'logout', 'relogin', 'urlform_long', 'urlform_cut', 'ext_set', 'ext_get'}
+           'chunked_urlform', 'peek', 'spilled_echo', 'cookies_bad', 'cookies_ok', 'form_repeated', 'greet_known', 'greet_stranger', 'anon_wildcard_path', 'prepared_bye', 'logout', 'relogin', 'urlform_long', 'urlform_cut', 'ext_set', 'ext_get', 'whoami_known', 'whoami_anon', 'prepared_copy_personal', 'prepared_copy_plain', 'empty_body_closed', 'empty_body_read',
+           'hdr_false', 'hdr_zero', 'hdr_fzero', 'hdr_true', 'hdr_one', 'hdr_fone'}
 SHARED_ERR = {'badchunk', 'badmultipart', 'oversized', 'noname_part', 'badjson_json', 'badchunk_json', 'oversized_json', 'cutmp_in_closing_delimiter', 'cutmp_in_first_delimiter'}
 
 
